@@ -956,6 +956,9 @@ def main(prop, tier, seed):
             layout_trace.validate(run, prop, tier, seed)
         if prop in ("C04", "C05") and not run.machinery_errors:
             calibrate_eeam(run)
+        if tier == "thorough" and prop in ("C01", "C03", "C05"):
+            # unbounded arithmetic facts behind the counting / grid invariants, by the TLA+ proof system (extra evidence only)
+            run.notes["tlaps_LayoutFacts"] = tlc.tlaps(os.path.join(boot.VERIF, "spec", "proofs", "LayoutFacts.tla"))
     except tlc.TLCError as e:
         run.machinery(str(e))
     return run.finish()
